@@ -3,7 +3,7 @@
    limit is a runtime constant outside the model: DESIGN section 7.) *)
 From Coq Require Import List NArith ZArith QArith Bool.
 From Mathy Require Import Tok Lexer Num Expr Parser Grammar ParserObj.
-From MathyProofs Require Import LexerFacts ParserTop ParserObjFacts.
+From MathyProofs Require Import LexerFacts ParserTop ParserValueError ParserObjFacts.
 Import ListNotations.
 
 (* the fuel 10*|tokens|+20 always suffices: parsing terminates with a tree or an exception *)
@@ -36,6 +36,26 @@ Theorem C10_no_sticky : forall ops s,
   snd (pstep (run ops init) (OParse s)) = RTree (parse s) /\ snd (pstep init (OParse s)) = RTree (parse s).
 Proof. intros. split; [exact (history_independent_parse ops s)|exact (history_independent_parse [] s)]. Qed.
 Print Assumptions C10_no_sticky.
+
+(* where a ValueError comes from: an unsupported character, or a number token that coerce_to_number rejects
+   (more than one '.', or a lone '.') - nothing else *)
+Theorem C10_value_error_sources : forall s, parse s = Raises ValueError ->
+  forallb supported s = false \/
+  exists ts t, tokenize true s = LOk ts /\ In t ts /\ ((2 <= dots (tv t))%nat \/ tv t = [46%N]).
+Proof.
+  intros s H. unfold parse in H. destruct (tokenize true s) as [ts|c|] eqn:T.
+  - right. destruct (parse_tokens_value_error ts H) as (t & Hin & B). exists ts, t. split; [reflexivity|]. split; [exact Hin|]. now apply bad_number_spec.
+  - left. apply (proj1 (lex_invalid_iff true s)). eauto.
+  - discriminate.
+Qed.
+Print Assumptions C10_value_error_sources.
+
+(* and an unsupported character always gives ValueError, whatever else is wrong with the input *)
+Theorem C10_unsupported_character : forall s, forallb supported s = false -> parse s = Raises ValueError.
+Proof.
+  intros s H. destruct (proj2 (lex_invalid_iff true s) H) as (c & T). unfold parse. now rewrite T.
+Qed.
+Print Assumptions C10_unsupported_character.
 
 Example C10_example :
   parse [40;120]%N = Raises InvalidSyntax /\ parse [49;46;50;46;51]%N = Raises ValueError /\ parse [50;32;51]%N = Raises TrailingTokens
